@@ -111,3 +111,48 @@ pub open spec fn bool_split(ins: Seq<Row>, n: int, v: Seq<char>, side: bool, out
         ||| (outs.len() >= 1 && bool_img(ins[n - 1], v, side, seq![outs.last()]) && bool_split(ins, n - 1, v, side, outs.drop_last()))
     }
 }
+
+// ---- compile_constructor_cases: splitting the rows on a constructor-typed scrutinee variable (enums, and structs as one-constructor enums) ----
+#[verifier::external_body] pub struct EnumConstructor { _p: u64 }
+impl EnumConstructor {
+    pub uninterp spec fn idx(&self) -> usize;
+    #[verifier::external_body] pub fn enum_index(&self) -> (r: usize) ensures r == self.idx() { unimplemented!() }
+}
+impl Constructor {
+    pub uninterp spec fn enum_part(&self) -> Option<EnumConstructor>;
+    #[verifier::external_body] pub fn as_enum(&self) -> (r: Option<&EnumConstructor>) ensures r matches Some(e) ==> self.enum_part() == Some(*e), r is None ==> self.enum_part() is None { unimplemented!() }
+}
+impl VClone for Constructor { #[verifier::external_body] fn vclone(&self) -> (r: Self) { unimplemented!() } }
+// `vars.into_iter().map(|var| var.to_core()).collect()`
+#[verifier::external_body]
+pub fn vars_to_core(vars: Vec<Variable>) -> (r: Vec<core::Expr>)
+    ensures r@.len() == vars@.len(), forall|i: int| 0 <= i < vars@.len() ==> #[trigger] r@[i] == var_core(vars@[i]),
+{ unimplemented!() }
+// which case (variant index) a constructor pattern belongs to
+pub open spec fn pat_case(p: Pat) -> Option<int> {
+    match p { Pat::PConstr { constructor, .. } => match constructor.enum_part() { Some(e) => Some(e.idx() as int), None => None }, _ => None }
+}
+// the new columns for a constructor pattern's sub-patterns: sub-pattern i is tested against the case's i-th fresh variable
+pub open spec fn sub_cols(cs: Seq<Column>, vars: Seq<Variable>, args: Seq<Pat>) -> bool {
+    cs.len() == (if vars.len() <= args.len() { vars.len() } else { args.len() })
+    && forall|i: int| 0 <= i < cs.len() ==> (#[trigger] cs[i]).var@ == vars[i].name@ && cs[i].pat == args[i]
+}
+// what ONE row contributes to the sub-matrix of case c: itself if it does not test v; if it tests `v is case c`, itself minus that
+// test plus the tests of the sub-patterns (appended, in order); nothing if it tests another case
+pub open spec fn ctor_img(r: Row, v: Seq<char>, c: int, vars: Seq<Variable>, o: Seq<Row>) -> bool {
+    ||| (no_col(r, v) && o.len() == 1 && o[0].body == r.body && o[0].columns@ == r.columns@)
+    ||| (exists|k: int| #[trigger] col_of(r, v, k) && pat_case(r.columns@[k].pat) == Some(c) && o.len() == 1 && o[0].body == r.body
+            && o[0].columns@.len() >= r.columns@.len() - 1
+            && o[0].columns@.subrange(0, r.columns@.len() - 1) == r.columns@.remove(k)
+            && sub_cols(o[0].columns@.subrange(r.columns@.len() - 1, o[0].columns@.len() as int), vars, r.columns@[k].pat->PConstr_args@))
+    ||| (exists|k: int| #[trigger] col_of(r, v, k) && pat_case(r.columns@[k].pat) is Some && pat_case(r.columns@[k].pat) != Some(c) && o.len() == 0)
+}
+pub open spec fn ctor_split(ins: Seq<Row>, n: int, v: Seq<char>, c: int, vars: Seq<Variable>, outs: Seq<Row>) -> bool
+    decreases n,
+{
+    if n <= 0 || n > ins.len() { outs.len() == 0 }
+    else {
+        ||| (ctor_img(ins[n - 1], v, c, vars, Seq::<Row>::empty()) && ctor_split(ins, n - 1, v, c, vars, outs))
+        ||| (outs.len() >= 1 && ctor_img(ins[n - 1], v, c, vars, seq![outs.last()]) && ctor_split(ins, n - 1, v, c, vars, outs.drop_last()))
+    }
+}
